@@ -195,14 +195,13 @@ def r4(ctx):
         news = [x for x in atoms(sem) if isinstance(x, tuple) and x[0] == "call" and x[1] == SEM + "new"]
         ok = len(news) == 1 and F(P("config"), "connection_limit") in atoms(news[0][3][0])
         rep.check(ok, "Semaphore::new(connection_limit)", "Semaphore::new(config.connection_limit)", "the connection semaphore is created with %s permits, not the configured connection limit" % (short(news[0][3][0], 60) if news else "?"), nb.loc())
-    # plumbing: arg#1 of MemcacheServerConfig::new <- config.connection_limit, in both builders
-    for fn in ("create_current_thread_server", "create_threadpool_server"):
-        b = f.one("memcrs::memcache_server::runtime_builder::" + fn)
-        okp = None
-        for bb, t in b.calls():
-            if (t.callee.path or "").endswith("MemcacheServerConfig::new"):
-                okp = chase_mentions(b, t.args[1], ("connection_limit",))
-        rep.check(bool(okp), "plumbing:%s" % fn, "MemcacheServerConfig::new(_, <- args.connection_limit, _, _)", "%s does not pass the CLI connection limit as the server's connection_limit" % fn, b.loc())
+    # plumbing: the server config's connection_limit <- the CLI connection limit, in both builders
+    from rules import builderfacts
+
+    for fn in builderfacts.BUILDERS:
+        bf = builderfacts.builder_facts(ctx, fn)
+        okp = bool(bf["news"]) and all(field_of(cfg, "connection_limit") == F(P("config"), "connection_limit") for cfg, _st, _e in bf["news"])
+        rep.check(okp, "plumbing:%s" % fn, "server config connection_limit <- args.connection_limit", "%s does not pass the CLI connection limit as the server's connection_limit" % fn, bf["body"].loc())
     # multiplicity: every construction site of MemcacheTcpServer::new / Semaphore::new runs once per process
     cg = callgraph.get(ctx)
     for callee_name in (SERVER + "::new", SEM + "new"):
